@@ -771,9 +771,10 @@ hx_request(struct hx_reply_s *rp, uid_t u, const char *req, size_t len)
 		syscall(SYS_close, (long)sv[0], 0L, 0L, 0L, 0L, 0L);
 	}
 	c = make_conn();
+	/* what get_peereuid() delivers: the bare ids of the peer, whether or not the user data base knows them */
 	{
 		ncred_t cr = compl_uid(u);
-		c->cred = cr;
+		c->cred = cr.u != NOT_A_UID ? cr : (ncred_t){u, u};
 	}
 	ev_io_init(&c->r, sock_data_cb, sv[1], EV_READ);
 	/* what the loop does when the socket is readable: once per recv() until the handler shuts it */
